@@ -91,11 +91,14 @@ Proof. exact (conj ex_b_wf (conj ex_lookup_ok (conj ex_accepted (conj ex_holds_1
 (** ------------------------------------------------------------------------
     DEALER HALF (INVOCATION / disclose_caller), proved in Router/DealerCall.v
     ------------------------------------------------------------------------ *)
-From Nexus Require Import Router.DealerProofs Router.DealerCall Router.DealerExamples.
+From Nexus Require Import Router.Realm Router.DealerProofs Router.DealerReg Router.DealerCall Router.DealerWf
+     Router.DealerExamples Router.DealerTrace Router.DealerDisclose.
+From Coq Require Import Relations.
 
-(** the caller's identity is in the INVOCATION details iff the registration
-    asked for it (disclose_caller, checked at REGISTER) or the caller asked
-    (disclose_me), the realm allows disclosure and the callee announced
+(** the caller's identity is in the INVOCATION details iff THIS callee asked
+    for it when it registered ([reg_discloses r callee_id]: disclose_caller,
+    checked at REGISTER, per callee of a shared registration) or the caller
+    asked (disclose_me), the realm allows disclosure and the callee announced
     caller_identification *)
 Theorem C12_invocation_disclose_iff : forall cfg lookup now d caller req opts proc args kw oracle d' callee' o,
     call cfg lookup now d caller req opts proc args kw oracle = CallInvoked d' callee' o ->
@@ -103,7 +106,7 @@ Theorem C12_invocation_disclose_iff : forall cfg lookup now d caller req opts pr
     exists r callee_id callee invid det,
       match_procedure d proc oracle = Some r /\ lookup callee_id = Some callee /\
       o = [(callee_id, RInvocation invid (reg_id r) det args kw)] /\
-      let allowed := reg_disclose r ||
+      let allowed := reg_discloses r callee_id ||
                      (opt_bool opts "disclose_me" && c_disclose cfg && sess_feature callee "callee" f_caller_ident) in
       dget det "caller" = (if allowed then Some (vid (s_id caller)) else None) /\
       dget det "caller_authid" = (if allowed then dget (s_details caller) "authid" else None) /\
@@ -119,20 +122,79 @@ Theorem C12_call_disclose_refused : forall cfg lookup now d caller req opts proc
     select_callee r oracle = Some (callee_id, next) -> lookup callee_id = Some callee ->
     call_feature_refused callee opts = false ->
     call_ppt_abort caller opts = false -> call_ppt_refused callee opts = false ->
-    opt_bool opts "disclose_me" = true -> reg_disclose r = false -> c_disclose cfg = false ->
+    opt_bool opts "disclose_me" = true -> reg_discloses r callee_id = false -> c_disclose cfg = false ->
     call cfg lookup now d caller req opts proc args kw oracle =
     CallRefused (call_d0 d r next) [(s_id caller, RError c_CALL req [] e_disclose_me [] [])] /\
     same_calls d (call_d0 d r next) /\ d_timers (call_d0 d r next) = d_timers d.
 Proof. exact call_disclose_refused_proof. Qed.
 Print Assumptions C12_call_disclose_refused.
 
-Theorem C12_call_disclose_never_invoked : forall cfg lookup now d caller req opts proc args kw oracle d' callee' o r,
+Theorem C12_call_disclose_never_invoked : forall cfg lookup now d caller req opts proc args kw oracle d' callee' o r x m,
     call cfg lookup now d caller req opts proc args kw oracle = CallInvoked d' callee' o ->
     cget (d_bycall d) (s_id caller, req) = None ->
-    match_procedure d proc oracle = Some r ->
-    opt_bool opts "disclose_me" = true -> reg_disclose r = false -> c_disclose cfg = true.
+    match_procedure d proc oracle = Some r -> In (x, m) o ->
+    opt_bool opts "disclose_me" = true -> reg_discloses r x = false -> c_disclose cfg = true.
 Proof. exact call_disclose_never_invoked_proof. Qed.
 Print Assumptions C12_call_disclose_never_invoked.
+
+(** disclose_caller is the callee's own: along every history of dealer steps
+    (REGISTER, UNREGISTER, session removal, CALL, and the steps that do not
+    touch registrations), every member [sid] of [reg_disclose r] is a callee of
+    [r], listed once, and justified ([J rid sid]); a step extends the
+    justification only by "[sid] itself sent a REGISTER with disclose_caller =
+    true, the realm allows disclosure or [sid] is trusted, and the answer was
+    REGISTERED rid" ([C12_disclose_witness]).  It holds for the dealer of a
+    fresh realm ([C12_disclose_init]). *)
+Theorem C12_disclose_flag_is_callees_own : forall a b,
+    clos_refl_trans _ dj_step a b -> disclose_own (snd a) (fst a) -> disclose_own (snd b) (fst b).
+Proof. exact disclose_flag_is_callees_own_proof. Qed.
+Print Assumptions C12_disclose_flag_is_callees_own.
+
+Theorem C12_disclose_witness : forall d J d' J' rid sid,
+    dj_step (d, J) (d', J') -> J' rid sid ->
+    J rid sid \/
+    exists cfg callee req opts proc,
+      sid = s_id callee /\ opt_bool opts "disclose_caller" = true /\ disclose_allowed cfg callee /\
+      snd (fst (register cfg d callee req opts proc)) = [(sid, RRegistered req rid)].
+Proof. exact dj_step_witness. Qed.
+Print Assumptions C12_disclose_witness.
+
+Theorem C12_disclose_init : forall cfg,
+    disclose_own (fun _ sid => sid = meta_id) (r_dealer (init_realm cfg)).
+Proof. exact init_disclose_own. Qed.
+Print Assumptions C12_disclose_init.
+
+(** a callee that joins a shared registration without disclose_caller is not
+    disclosed to, whatever the creator (or any other member) asked for; one
+    that joins with it is the only one added *)
+Theorem C12_joining_does_not_inherit : forall cfg lookup J d callee req opts proc r d' mps,
+    dealer_wf lookup d -> disclose_own J d ->
+    reg_lookup d (opt_string opts "match") proc = Some r ->
+    register cfg d callee req opts proc = (d', [(s_id callee, RRegistered req (reg_id r))], mps) ->
+    exists r', nget (d_regs d') (reg_id r) = Some r' /\
+               reg_callees r' = reg_callees r ++ [s_id callee] /\
+               reg_disclose r' = (if opt_bool opts "disclose_caller" then reg_disclose r ++ [s_id callee] else reg_disclose r) /\
+               (opt_bool opts "disclose_caller" = false -> reg_discloses r' (s_id callee) = false) /\
+               (forall x, x <> s_id callee -> reg_discloses r' x = reg_discloses r x).
+Proof. exact joining_does_not_inherit_proof. Qed.
+Print Assumptions C12_joining_does_not_inherit.
+
+(** realm without disclosure; 30 is trusted, 12 anonymous *)
+Example C12_joining_ex :
+    option_map (fun r => (reg_callees r, reg_disclose r)) (nget (d_regs dx2) 24) = Some ([30; 12], [30]) /\
+    inv_caller_key cx1 = Some (30, Some (vid 10)) /\ inv_caller_key cx2 = Some (12, None) /\
+    option_map (fun r => (reg_callees r, reg_disclose r)) (nget (d_regs dy2) 24) = Some ([12; 30], [30]) /\
+    inv_caller_key cy1 = Some (12, None) /\ inv_caller_key cy2 = Some (30, Some (vid 10)) /\
+    register cfg_nodisclose dx1 s12 2 rr_disc "com.d" = (dx1, [(12, RError c_REGISTER 2 [] e_disclose_me [] [])], []) /\
+    option_map (fun r => (reg_callees r, reg_disclose r)) (nget (d_regs (fst (fst (unregister dx2 30 9 24)))) 24) = Some ([12], []).
+Proof. exact joining_does_not_inherit_ex. Qed.
+
+Example C12_joining_hypotheses_ex :
+    dealer_wf lkx dx1 /\ disclose_own (fun _ _ => True) dx1 /\
+    (exists r mps, reg_lookup dx1 (opt_string rr_opts "match") "com.d" = Some r /\ reg_disclose r = [30] /\
+                   register cfg_nodisclose dx1 s12 2 rr_opts "com.d" = (dx2, [(s_id s12, RRegistered 2 (reg_id r))], mps)) /\
+    opt_bool rr_opts "disclose_caller" = false.
+Proof. exact joining_hypotheses_ex. Qed.
 
 (** ------------------------------------------------------------------------
     session meta events and wamp.session.get never expose transport
